@@ -180,6 +180,14 @@ def model_scopes(cap):
     return out
 
 
+def validator_verdict(drv, cap):
+    """the allocation validator (`okProg` + `edgesOk`, hypothesis of `checkAlloc_sound_static`) on one captured compilation"""
+    vtext, ptext, parsed = texts(cap)
+    live_in, live_out, indirect = liveness(parsed)
+    vmap = [[100 + int(VREG.match(k).group(1)), int(v[1:])] for k, v in cap.mapping.items() if VREG.match(k) and re.fullmatch(r"r\d+", str(v))]
+    return drv.call(cmd="check-alloc", text=vtext, map=vmap, live_in=live_in, live_out=live_out, indirect=indirect)
+
+
 def check_program(drv, chk, name, src, opts, pool, envs, steps, failures, diffs, stats):
     try:
         res, cap = whole.compile_captured(src, opts)
@@ -271,21 +279,21 @@ def run(tier: str, seed: int) -> int:
     drv = Driver()
     r = rng_for(PROP, seed)
     failures, diffs, stats = [], [], {}
-    steps = 3000 if tier == "quick" else 15000
-    n_env = 2 if tier == "quick" else 6
+    steps = 3000 if tier == "quick" else 8000
+    n_env = 2 if tier == "quick" else 4
     # shipped programs under both test configurations, generated programs (core/funcs/calls) with out-of-line functions
     for name, src in whole.repo_sources():
         for opts in (whole.default_opts(inline_functions=False, append_version=False), whole.default_opts(append_version=False)):
             check_program(drv, chk, name, src, opts, [0.0, 1.0, 2.0, 3.0, 5.0, 10.0, 0.5, -1.0], [1, 2], steps, failures, diffs, stats)
-    plan = [("core", 40 if tier == "quick" else 6000), ("funcs", 70 if tier == "quick" else 5000), ("calls", 40 if tier == "quick" else 4000),
-            ("deep", 70 if tier == "quick" else 5000)]
+    plan = [("core", 40 if tier == "quick" else 500), ("funcs", 70 if tier == "quick" else 700), ("calls", 40 if tier == "quick" else 400),
+            ("deep", 70 if tier == "quick" else 700)]
     for kind, n in plan:
         for i in range(n):
             g, prog, src, pool = whole.gen_program(r, kind)
             opts = whole.default_opts(inline_functions=(kind == "core"), append_version=False, use_push_pop_functions=r.random() < 0.3)
             check_program(drv, chk, f"{kind}:{i}", src, opts, pool, [r.randrange(1 << 30) for _ in range(n_env)], steps, failures, diffs, stats)
     # state machines: module-level variables that are updated and read only inside functions, main loop = calls + temporaries
-    for i in range(20 if tier == "quick" else 1500):
+    for i in range(20 if tier == "quick" else 200):
         k = r.randrange(1, 4)
         gs = [f"st{j}" for j in range(k)]
         lines = []
@@ -312,7 +320,7 @@ def run(tier: str, seed: int) -> int:
                       steps, failures, diffs, stats)
     # loop headers: arguments / locals whose last textual use is the header of a loop (range bound, start, step, while limit),
     # with bodies that need fresh temporaries and locals — the value must stay in its register as long as the loop runs
-    for i in range(24 if tier == "quick" else 1500):
+    for i in range(24 if tier == "quick" else 240):
         nf = r.randrange(1, 3)
         lines = []
         calls = []
@@ -339,6 +347,31 @@ def run(tier: str, seed: int) -> int:
         main = ["while True:"] + ["    " + c for c in calls] + ["    yield_()"] + (["    " + calls[0]] if r.random() < 0.5 else [])
         src = "\n".join(lines + main) + "\n"
         check_program(drv, chk, f"header:{i}", src, whole.default_opts(inline_functions=False, append_version=False, use_push_pop_functions=r.random() < 0.3), [0.0, 1.0, 2.0, 3.0, 4.0, 7.0],
+                      [r.randrange(1 << 30) for _ in range(n_env)], steps, failures, diffs, stats)
+    # layout: expressions laid out over several lines inside parentheses; a variable whose last use is the first line of such a
+    # statement is still needed when the operands on the following lines are computed
+    for i in range(16 if tier == "quick" else 160):
+        nf = r.randrange(1, 3)
+        lines, calls = [], []
+        for j in range(nf):
+            c1, c2, c3 = r.choice([28.5, 3, 7]), r.choice([20.0, 2, 5]), r.choice([1, 4])
+            op1, op2 = r.choice(["+", "-"]), r.choice(["+", "-", "*"])
+            first = r.choice(["base", "a"])
+            body = ["    base = a + " + str(c3)] if first == "base" else []
+            k = r.random()
+            if k < 0.5:
+                body += [f"    total = ({first}", f"             {op1} a * {c1}" if first == "base" else f"             {op1} b * {c1}", f"             {op2} b * {c2})"]
+            else:
+                body += [f"    total = ({first}", f"             {op1} (b * {c1} {op2} {c2}))"]
+            if r.random() < 0.5:
+                body += [f"    d{j}.Setting = total"]
+            else:
+                body += [f"    d{j}.Setting = (total", f"        * {c2} - b * {c3})"]
+            lines += [f"def g{j}(a, b):"] + body + [""]
+            calls.append(f"g{j}({r.choice(['2', 'd4.Mode', '5'])}, {r.choice(['3', 'd4.On + 1', '7'])})")
+        main = ["while True:"] + ["    " + c for c in calls] + ["    yield_()"]
+        src = "\n".join(lines + main) + "\n"
+        check_program(drv, chk, f"layout:{i}", src, whole.default_opts(inline_functions=r.random() < 0.3, append_version=False), [0.0, 1.0, 2.0, 3.0, 4.0, 7.0],
                       [r.randrange(1 << 30) for _ in range(n_env)], steps, failures, diffs, stats)
     # register pressure: many simultaneously live variables, up to and beyond 16
     for k in list(range(10, 22)) * (1 if tier == "quick" else 6):
